@@ -361,6 +361,20 @@ Theorem C16_whitespace_insert_partial : forall (U : uni), ascii_ok U ->
 Proof. exact ws_insert_bytes. Qed.
 Print Assumptions C16_whitespace_insert_partial.
 
+(* in particular the kinds are the same *)
+Theorem C16_whitespace_insert_kinds_partial : forall (U : uni), ascii_ok U ->
+  forall (xb ws bb : list byte),
+    Forall (fun b => (9 <= bz b <= 13)%Z \/ bz b = 32%Z) ws -> ws <> [] ->
+    match bb with [] => True | a :: _ => (bz a < 128)%Z end ->
+    (forall pat, pat = map bz s_anchor \/ pat = map bz s_literalType ->
+       forall P S pat', map fst (decode_all xb) = P ++ S -> S <> [] -> pat = S ++ pat' -> pat' = []) ->
+  forall (pre : list token) (t : token) (post : list token),
+    fst (lex_with U (xb ++ bb)) = pre ++ t :: post -> post <> [] -> tk_end t = length xb -> tk_start t < tk_end t ->
+    ~ (tk_kind t = ItemFilterFunction \/ tk_kind t = ItemTime \/ tk_kind t = ItemPredicateBound) ->
+    map tk_kind (fst (lex_with U (xb ++ ws ++ bb))) = map tk_kind (fst (lex_with U (xb ++ bb))).
+Proof. exact ws_insert_kinds. Qed.
+Print Assumptions C16_whitespace_insert_kinds_partial.
+
 (* the domain is inhabited:  ?x,?y  ->  ?x<SP><TAB>,?y  *)
 Example C16_whitespace_insert_example :
   fst (lex_with go_uni ([x3f;x78] ++ [x20;x09] ++ [x2c;x3f;x79])) =
